@@ -16,9 +16,57 @@ import (
 	"github.com/valyala/fasthttp/fasthttputil"
 )
 
+// simListener: the in-memory listener of fasthttputil plus a second way in: connections made of a synchronous
+// pipe (net.Pipe: a write blocks until the peer reads), for clients that must be able to exert back-pressure
+// on the server (a websocket client that stops reading).
+type simListener struct {
+	*fasthttputil.InmemoryListener
+	inject chan net.Conn
+	acc    chan acceptResult
+	pump   sync.Once
+}
+
+type acceptResult struct {
+	c   net.Conn
+	err error
+}
+
+func (l *simListener) Accept() (net.Conn, error) {
+	l.pump.Do(func() {
+		go func() {
+			for {
+				c, err := l.InmemoryListener.Accept()
+				l.acc <- acceptResult{c, err}
+				if err != nil {
+					return
+				}
+			}
+		}()
+	})
+	select {
+	case c := <-l.inject:
+		return c, nil
+	case r := <-l.acc:
+		return r.c, r.err
+	}
+}
+
+// DialSync connects through a synchronous pipe (see simListener).
+func DialSync(addr string) (net.Conn, error) {
+	mu.Lock()
+	ln := listeners[addr]
+	mu.Unlock()
+	if ln == nil {
+		return nil, fmt.Errorf("simnet: nobody listens on %q", addr)
+	}
+	c1, c2 := net.Pipe()
+	ln.inject <- c2
+	return c1, nil
+}
+
 var (
 	mu        sync.Mutex
-	listeners = map[string]*fasthttputil.InmemoryListener{}
+	listeners = map[string]*simListener{}
 	order     []string
 	sent      []Delivery
 	failNext  int
@@ -42,7 +90,7 @@ func Listen(network, addr string) (net.Listener, error) {
 	if _, dup := listeners[addr]; dup {
 		return nil, &net.OpError{Op: "listen", Net: network, Err: errors.New("address already in use")}
 	}
-	ln := fasthttputil.NewInmemoryListener()
+	ln := &simListener{InmemoryListener: fasthttputil.NewInmemoryListener(), inject: make(chan net.Conn, 64), acc: make(chan acceptResult)}
 	listeners[addr] = ln
 	order = append(order, addr)
 	return ln, nil
